@@ -254,6 +254,36 @@ def _parse_val(e):
     return ('x', norm(e))
 
 
+def r0_writer_order(rep, src):
+    """the writers walk the stored collections (extra key=value pairs, change lines, blocks) in stored order: an iteration through
+    sorted() / reversed() / set() writes them in another order than they were read"""
+    for site in (M + ':ChangeBlock._format', M + ':Changelog._format'):
+        f = src.func(site)
+        rep.saw_func(f)
+        n = 0
+        for node in ast.walk(f.node):
+            its = []
+            if isinstance(node, ast.For):
+                its = [node.iter]
+            elif isinstance(node, (ast.ListComp, ast.GeneratorExp, ast.SetComp, ast.DictComp)):
+                its = [g.iter for g in node.generators]
+            elif isinstance(node, ast.Call) and isinstance(node.func, ast.Attribute) and node.func.attr == 'join' and node.args:
+                its = [node.args[0]]
+            for it in its:
+                if not any(isinstance(x, ast.Attribute) and norm(x.value) == 'self' for x in ast.walk(it)):
+                    continue
+                n += 1
+                wrappers = [norm(c.func) for c in ast.walk(it) if isinstance(c, ast.Call) and norm(c.func) in ('sorted', 'reversed', 'set', 'frozenset')]
+                what = 'order of ' + norm(it)[:50]
+                if wrappers:
+                    rep.fail('C04.R1', f.site, what, 'the stored items are written through %s(): in another order than they were read, so str() does not reproduce a '
+                             'text whose items are not already in that order' % wrappers[0], where='%s:%d' % (f.module.relpath, it.lineno))
+                else:
+                    rep.ok('C04.R1', f.site, what, 'stored order', nontrivial=False)
+        if n == 0:
+            raise AnalysisError('%s: no iteration over stored items found' % f.site)
+
+
 def r1b_reader_wiring(rep, src):
     """the reader stores the groups where the writer reads them -- decided on the paths of the line loop with the locals
     substituted away: every store into the current block is expressed over regex groups of the line"""
@@ -594,6 +624,7 @@ def check(src, rep, tier):
         f, term, raised = extract_block_template(src, rep)
         lines = cut_lines(term)
         return f, lines
+    rep.guard('C04.R1', r0_writer_order, src)
     out = rep.guard('C04.R4', templ)
     if out is None:
         return
